@@ -199,7 +199,7 @@ INST = {
                  mods={'Hd': {'hard': True, 'rectangles': [[2.0, 1.0, 2.0, 2.0], [3.5, 1.0, 1.0, 1.0]]},
                        'A': {'area': 4.0, 'center': [6.0, 2.0]}}, nets=[['A', 'Hd']]),
     'hardflip': dict(die=dict(width=8.0, height=4.0), grid=(1, 2),
-                     mods={'Hd': {'hard': True, 'flip': True, 'rectangles': [[2.0, 1.0, 2.0, 2.0], [3.5, 1.0, 1.0, 1.0]]},
+                     mods={'Hd': {'hard': True, 'flip': True, 'rectangles': [[2.0, 1.0, 2.0, 2.0], [3.5, 1.5, 1.0, 1.0]]},
                            'A': {'area': 4.0, 'center': [6.0, 2.0]}}, nets=[['A', 'Hd', 2.0]]),
     'grid4': dict(die=dict(width=4.0, height=4.0), grid=(2, 2),
                   mods={'A': {'area': 5.0, 'center': [1.0, 1.0]}, 'B': {'area': 4.0, 'center': [3.0, 3.0]},
